@@ -19,6 +19,7 @@ pub struct Plan {
     pub s_depth: usize,
     pub step_cap: u64,
     pub widths: Vec<Width>,
+    pub w_full: bool,
 }
 
 pub fn plan(tier: Tier, backend: Backend) -> Plan {
@@ -34,6 +35,7 @@ pub fn plan(tier: Tier, backend: Backend) -> Plan {
             s_depth: 2,
             step_cap: 20_000,
             widths: vec![Width::W8, Width::W64],
+            w_full: false,
         },
         Tier::Thorough => Plan {
             a_len: 8 + extra,
@@ -45,6 +47,7 @@ pub fn plan(tier: Tier, backend: Backend) -> Plan {
             s_depth: 2,
             step_cap: 100_000,
             widths: Width::ALL.to_vec(),
+            w_full: true,
         },
     }
 }
@@ -88,6 +91,8 @@ pub fn enumerate(p: &Plan, f: &mut dyn FnMut(u64, &'static str, &[u8])) -> u64 {
         let s1 = base;
         base += spaces::space_s(2, p.s_inner, &mut |i, c| f(s1 + i, "S2", c));
     }
+    let w0 = base;
+    base += spaces::space_w(p.w_full, &mut |i, c| f(w0 + i, "W", c));
     for (_, c) in spaces::space_k() {
         f(base, "K", &c);
         base += 1;
@@ -112,7 +117,13 @@ pub fn worker(ctx: &mut WorkerCtx, prop: &'static str, backend: Backend) {
 pub fn replay_program(ctx: &mut WorkerCtx, prop: &'static str, backend: Backend, code: &[u8]) {
     let p = plan(ctx.tier, backend);
     // replay with the widest settings of the plan ("K" never restricts widths by length)
-    let tag = if code.len() <= p.a_len_allwidths { "A" } else { "K" };
+    let tag = if code.len() <= p.a_len_allwidths {
+        "A"
+    } else if code.starts_with(b"++>>,>") || code.starts_with(b"+>>,>") {
+        "W"
+    } else {
+        "K"
+    };
     judge_program(ctx, &p, prop, backend, tag, code);
     if tag == "K" {
         judge_program(ctx, &p, prop, backend, "S", code);
@@ -128,7 +139,15 @@ pub fn judge_program(ctx: &mut WorkerCtx, p: &Plan, prop: &'static str, backend:
         let widths = if tag == "A" && code.len() <= p.a_len_allwidths { &all_widths } else { &p.widths };
         for &w in widths {
             let depth = if tag.starts_with('S') { p.s_depth } else { p.depth };
-            let runs = diff::explore_env(&code, w, depth, p.step_cap, false);
+            let runs = if tag == "W" {
+                // wide assignments need all cells distinct and non-zero: fixed scripts, no choice tree
+                spaces::W_SCRIPTS
+                    .iter()
+                    .map(|s| (s.to_vec(), crate::refbf::run(&code, w, s, p.step_cap * 4, false)))
+                    .collect()
+            } else {
+                diff::explore_env(&code, w, depth, p.step_cap, false)
+            };
             ctx.count("env_nodes", runs.len() as u64);
             let halting: Vec<_> = runs.into_iter().filter(|(_, c)| c.verdict == Verdict::Halt).collect();
             if halting.is_empty() {
